@@ -8,7 +8,7 @@ TRUSTED_BASE = [
     "Go toolchain, go-ipld-prime, go-ipfs-pq, go-peertaskqueue, libp2p: outside the model",
 ]
 
-HOOK_COMMITS = []
+HOOK_COMMITS = ['95b4529 verif hooks: expose link tracker map sizes (build tag verif)']
 NOT_YET = {}
 
 PROPS = {
@@ -26,5 +26,12 @@ PROPS = {
         level_note="Partial: the FIFO clause is enforced by monitor_C14 on observed histories and by the model's structure (grants only ever take a queue head) rather than by a history-level theorem. Cross-peer grant order inside one call is not observable.",
         trusted=["go-ipfs-pq heap assumed to return a comparator-minimal element; ties are unobservable"],
         assumptions=["cross-peer order of grants inside one call is not observable through per-ticket channels and is not compared"],
+    ),
+    'C19': dict(
+        driver='linktracker', monitors=['MON19'], proof_files=['LinkTrackerProofs.v'],
+        level_text="Refinement theorem C19_holds: for every operation sequence over interleaved requests the model of linktracker+peerLinkTracker (refcounts, per-key trackers) produces a history accepted by the executable in-progress-requests specification (send iff present, not skipped and unheld in scope; complete-full iff nothing missing; no state when idle); C19_send_iff and C19_idle_no_state as corollaries. Model run against the real ResponseAssembler streams/transactions on generated scripts each run; the same monitor is evaluated on the implementation's histories.",
+        level_note="Kernel-checked over the Gallina model; tie to Go is differential (decisions, indices, completion status and the sizes of all internal maps after every op via a verif-tag hook). Histories that assign a dedup key to a request that already has state are outside the protocol and unclaimed.",
+        trusted=["verif hook VerifTrackerSizes (add-only, build tag verif) reports map sizes"],
+        assumptions=["operations on one peer's tracker are serialised by its mutex (each op is one atomic step)"],
     ),
 }
